@@ -6,7 +6,8 @@
 (*   constructor)   N the same plan written the way a user would: the most       *)
 (*   specific operator overload for handles / integer / float / Boolean literals,  *)
 (*   list helpers over handles, sum(), constraint! macros   T text   K text with constants through   *)
-(*   the API   P staged pipes   S one-shot solver                                 *)
+(*   the API   P staged pipes   S one-shot solver   M the builder through the     *)
+(*   MicroLP solver object (solve_with(Microlp::new())) instead of Auto           *)
 (* Accepted iff                                                                   *)
 (*  - every door's answer is right for the abstract model (Judge: satisfiable iff *)
 (*    solution, returned values feasible, reported objective = objective at the   *)
@@ -43,8 +44,8 @@ SameRows(a, b) ==
 \* identical expression trees: sense, objective tree and constraints (names, trees, relations); the
 \* declaration lists differ by construction (the builder keeps every declared variable)
 SameTrees(m, n) == DOMAIN m # {} /\ DOMAIN n # {} /\ m.sense = n.sense /\ m.obj = n.obj /\ m.cons = n.cons
-Doors == <<"B", "N", "T", "K", "P", "S">>
-Res(ev, d) == CASE d = "B" -> ev.B [] d = "N" -> ev.N [] d = "T" -> ev.T [] d = "K" -> ev.K [] d = "P" -> ev.P [] d = "S" -> ev.S
+Doors == <<"B", "N", "T", "K", "P", "S", "M">>
+Res(ev, d) == CASE d = "B" -> ev.B [] d = "N" -> ev.N [] d = "T" -> ev.T [] d = "K" -> ev.K [] d = "P" -> ev.P [] d = "S" -> ev.S [] d = "M" -> ev.M
 ValOf(pt, nm) == LET S == {j \in 1..Len(pt) : pt[j].name = nm} IN
                  IF S = {} THEN [has |-> FALSE] ELSE pt[CHOOSE j \in S : TRUE]
 ObsEq(x, y) == x.snap = y.snap /\ x.n = y.n /\ x.d = y.d /\ x.c = y.c
